@@ -26,6 +26,11 @@ func H01_shape() {
 			{name: "f", terms: []string{"", "a"}, tv: true, maxLocs: 1, multi: true},
 			{name: "g", terms: []string{"é", "b"}, dv: true},
 		}}
+	if vParam("comp", 0) == 1 {
+		// a composite field (bleve's _all): delivered through VisitComposite, its locations name the source field
+		cfg.fields[1] = gField{name: "c", terms: []string{"é", "b"}, tv: true, maxLocs: 1, comp: true, locField: "f"}
+		cfg.fields[0].always = true
+	}
 	if vParam("lite", 0) == 1 {
 		cfg.fields[0].terms = []string{""}
 		cfg.fields[0].multi = false
